@@ -655,6 +655,48 @@ func joinThenFF(r *Result, rng *rand.Rand, like *hg.Block) {
 		fb, ff = forgeResponseBy(strangers, like, me.peer) // the joiner is a member, only strangers signed
 	}
 	r.Inc(fmt.Sprintf("join_then_ff_variant_%d", variant), 1)
+	// the same history on the Lean model of the trusted sets (Babble.Trust)
+	num := map[string]int{me.peer.PubKeyString(): 99}
+	for i, p := range configured {
+		num[p.peer.PubKeyString()] = 1 + i
+	}
+	for i, p := range strangers {
+		num[p.peer.PubKeyString()] = 10 + i
+	}
+	nums := func(ps []*peers.Peer) string {
+		l := []string{}
+		for _, p := range ps {
+			if p != nil {
+				l = append(l, fmt.Sprint(num[p.PubKeyString()]))
+			}
+		}
+		return listOrDash(l)
+	}
+	setOf := func(ps *peers.PeerSet) string {
+		if ps == nil {
+			return "-"
+		}
+		return nums(ps.Peers)
+	}
+	tc := &Case{ID: fmt.Sprintf("join-then-ff variant %d", variant)}
+	sets := func() string {
+		vc := victim.VerifCore()
+		return fmt.Sprintf("O sets peers=%s genesis=%s validators=%s", setOf(vc.Peers()), setOf(vc.GenesisPeers()), setOf(vc.Validators()))
+	}
+	tc.Op("CASE")
+	tc.Op(fmt.Sprintf("TR init %s %s", nums(pl), nums(pl)), sets())
+	signers := func(b *hg.Block, f *hg.Frame) string {
+		l := []string{}
+		for _, p := range f.Peers {
+			if sg, ok := b.Signatures[p.PubKeyString()]; ok {
+				if ok2, _ := b.Verify(hg.BlockSignature{Validator: p.PubKeyBytes(), Index: b.Index(), Signature: sg}); ok2 {
+					l = append(l, fmt.Sprint(num[p.PubKeyString()]))
+				}
+			}
+		}
+		return listOrDash(l)
+	}
+	defer func() { r.Compare(tc) }()
 	stop := make(chan struct{})
 	go func() {
 		for {
@@ -681,11 +723,13 @@ func joinThenFF(r *Result, rng *rand.Rand, like *hg.Block) {
 		return
 	}
 	r.Inc("join_then_ff_state_"+victim.GetState().String(), 1)
+	tc.Op(fmt.Sprintf("TR join 1 0 %s", nums(claimed)), sets())
 	victim.SetState(_state.CatchingUp)
 	stateBefore := append([]byte{}, a.state...)
 	restoredBefore := a.restored
 	cls, det := guarded(func() error { return victim.VerifFastForward() })
 	r.Inc("join_then_ff_"+cls, 1)
+	tc.Op(fmt.Sprintf("TR ff %s %s 1 1 1", nums(ff.Peers), signers(fb, ff)), fmt.Sprintf("O %s", map[bool]string{true: "acc", false: "rej"}[cls == "ok"]), sets())
 	strangerIn := func(ps *peers.PeerSet) bool {
 		if ps == nil {
 			return false
